@@ -94,7 +94,7 @@ def _world():
     import frontend.server.connector as CN
     SV, SM, CM, SFM, CV, CFM = FE.FIX["mods"]
     fs, rt = FE.world()
-    CN._sse_service_manager = SM.ServicesManager()
+    FE.reset_server()
     WORLD.clear()
     WORLD.update(fs=fs, rt=rt, conns=[], results=[])
     return fs, rt
